@@ -755,3 +755,80 @@ Lemma warn_sub_overflow_witness :
   compute_next_checked true 1700000000000000 (Some (2 ^ 63)) = None /\
   compute_next_checked false 1700000000000000 (Some (2 ^ 63)) = Some 1700000000000001.
 Proof. repeat split; vm_compute; reflexivity. Qed.
+
+(* ---------------- deepening round 3: specifications ---------------- *)
+
+(* independent specification of compute_next: the LEAST value that is above `last` and not below the reading
+   (pre-epoch reading: the least value above `last`) *)
+Definition least_above (last : Z) (c : clock) (v : Z) : Prop :=
+  last < v /\ (forall m, c = Some m -> m <= v) /\
+  forall w, last < w -> (forall m, c = Some m -> m <= w) -> v <= w.
+
+Lemma compute_next_spec last c v :
+  0 <= last < i64_max -> (forall m, c = Some m -> 0 <= m <= i64_max) ->
+  (v = compute_next last c <-> least_above last c v).
+Proof.
+  intros Hl Hc. unfold least_above, compute_next.
+  assert (E : wrap64 (last + 1) = last + 1) by (apply wrap64_id; unfold i64_min, i64_max in *; lia).
+  destruct c as [m|].
+  - specialize (Hc m eq_refl). rewrite (wrap64_id m) by (unfold i64_min, i64_max in *; lia). cbv zeta. rewrite E.
+    destruct (Z.gtb_spec m last) as [Hg|Hg].
+    + split.
+      * intros ->. split; [lia|]. split; [intros m0 H; injection H as <-; lia|].
+        intros w Hw Hm. apply (Hm m eq_refl).
+      * intros (H1 & H2 & H3). specialize (H2 m eq_refl).
+        assert (v <= m) by (apply H3; [lia|intros m0 H; injection H as <-; lia]). lia.
+    + split.
+      * intros ->. split; [lia|]. split; [intros m0 H; injection H as <-; lia|]. intros w Hw _. lia.
+      * intros (H1 & H2 & H3).
+        assert (v <= last + 1) by (apply H3; [lia|intros m0 H; injection H as <-; lia]). lia.
+  - rewrite E. split.
+    + intros ->. split; [lia|]. split; [intros m H; discriminate|]. intros w Hw _. lia.
+    + intros (H1 & _ & H3). assert (v <= last + 1) by (apply H3; [lia|intros m H; discriminate]). lia.
+Qed.
+
+(* and in closed form *)
+Lemma compute_next_max last m : 0 <= last < i64_max -> 0 <= m <= i64_max ->
+  compute_next last (Some m) = Z.max m (last + 1) /\ compute_next last None = last + 1.
+Proof.
+  intros Hl Hm. unfold compute_next.
+  assert (E : wrap64 (last + 1) = last + 1) by (apply wrap64_id; unfold i64_min, i64_max in *; lia).
+  rewrite (wrap64_id m) by (unfold i64_min, i64_max in *; lia). cbv zeta. rewrite E.
+  split; [|reflexivity]. destruct (Z.gtb_spec m last); lia.
+Qed.
+
+(* the exact boundary of the warning-branch overflow: for a reading that fits a u64, the i64 subtraction
+   `last - u_cur` overflows iff the reading lies in [2^63, 2^63 + last] *)
+Lemma warn_sub_overflow_iff last m : 0 <= last <= i64_max -> 0 <= m < 2 ^ 64 ->
+  (warn_sub_overflows last (Some m) = true <-> 2 ^ 63 <= m <= 2 ^ 63 + last).
+Proof.
+  intros Hl Hm. unfold warn_sub_overflows. cbv zeta.
+  rewrite andb_true_iff, Z.leb_le, Z.ltb_lt.
+  destruct (Z.lt_ge_cases m (2 ^ 63)) as [Hs|Hb].
+  - rewrite (wrap64_id m) by (unfold i64_min, i64_max in *; lia). unfold i64_max in *. lia.
+  - assert (E : wrap64 m = m - 2 ^ 64).
+    { unfold wrap64. replace (m + 2 ^ 63) with ((m - 2 ^ 63) + 1 * 2 ^ 64) by lia.
+      rewrite Z.mod_add by lia. rewrite Z.mod_small by lia. lia. }
+    rewrite E. unfold i64_max in *. lia.
+Qed.
+
+(* which timestamp a frame carries, as a characterisation *)
+Lemma frames_ts_iff stmt gen k f t :
+  (In f (frames_ts stmt gen k) <-> f = choose_ts stmt gen) /\
+  (choose_ts stmt gen = Some t <-> stmt = Some t \/ (stmt = None /\ gen = Some t)) /\
+  (choose_ts stmt gen = None <-> stmt = None /\ gen = None) /\
+  List.length (frames_ts stmt gen k) = S k /\
+  (gen_consulted stmt = true <-> stmt = None).
+Proof.
+  unfold frames_ts. repeat split.
+  - intros H. apply repeat_spec in H. exact H.
+  - intros ->. cbn [repeat]. left. reflexivity.
+  - destruct stmt as [s|]; cbn; intros H; [left; exact H|right; split; [reflexivity|exact H]].
+  - intros [->|[-> ->]]; reflexivity.
+  - destruct stmt; cbn in H; [discriminate|reflexivity].
+  - destruct stmt; cbn in H; [discriminate|exact H].
+  - intros [-> ->]. reflexivity.
+  - apply repeat_length.
+  - destruct stmt; cbn; [discriminate|reflexivity].
+  - intros ->. reflexivity.
+Qed.
